@@ -7,9 +7,9 @@ for ID in $IDS; do
   P=seeded/$ID/patch.diff; [ -f seeded/$ID/patch.rebased.diff ] && P=seeded/$ID/patch.rebased.diff
   if ! git -C /repo apply --check /verif/$P 2>/dev/null; then echo "$ID patch-does-not-apply"; continue; fi
   git -C /repo apply /verif/$P
-  CHECKS=$ID
+  CHECKS=$(echo $ID | cut -c1-3)
   # a change may be visible to a neighbouring property's check as well
-  [ -f seeded/$ID/also.txt ] && CHECKS="$ID $(cat seeded/$ID/also.txt)"
+  [ -f seeded/$ID/also.txt ] && CHECKS="$(echo $ID | cut -c1-3) $(cat seeded/$ID/also.txt)"
   for C in $CHECKS; do
     ./check $C quick > /tmp/run_seed.$ID.$C.out 2>&1; RC=$?
     KEY=$(grep -m1 "key=" /tmp/run_seed.$ID.$C.out | sed 's/ occurrences.*//; s/^ *//')
